@@ -89,4 +89,70 @@ is about the registration during verification, not about the program. -/
 example : C02_statement_at 8 10 progF22 [.set 0 1, .set 2 1, .set 3 0, .call 0 0, .set 0 2, .call 0 0] := by
   decide +kernel
 
+/-! ### what is proved -/
+
+/-- **Equal-value writes** (the code after the repair of F3): setting a keyed source to the value it
+already has leaves the whole storage — epoch, every stamp, every dependency list — untouched … -/
+theorem C02_equal_write_noop (fuel : Nat) (P : Prog) (s : Storage) (k v : Nat) (nd : SrcNode)
+    (h : alookup s.srcs (.src k) = some nd) (hv : nd.val = v) :
+    (step fuel P s (.set k v)).1 = s :=
+  step_set_equal fuel P s k v nd h hv
+
+/-- … and so does setting a singleton to the value it already has. -/
+theorem C02_equal_write_noop_singleton (fuel : Nat) (P : Prog) (s : Storage) (i v : Nat) (nd : SrcNode)
+    (h : alookup s.srcs (.sing i) = some nd) (hv : nd.val = v) :
+    (step fuel P s (.sset i v)).1 = s :=
+  step_sset_equal fuel P s i v nd h hv
+
+/-- Hence an equal-value write causes no re-execution, whatever follows: the run counters (and
+the execution log, and every answer) after `set k v :: ops` are those after `ops`. -/
+theorem C02_equal_write_no_rerun (fuel : Nat) (P : Prog) (s : Storage) (k v : Nat) (nd : SrcNode) (ops : List Op)
+    (h : alookup s.srcs (.src k) = some nd) (hv : nd.val = v) :
+    runS fuel P s (.set k v :: ops) = runS fuel P s ops := by
+  rw [runS_cons, C02_equal_write_noop fuel P s k v nd h hv]
+
+example : alookup (after 8 10 progF22 [.set 0 1, .set 2 1, .set 3 0, .call 0 0, .set 3 1]).srcs (.src 0) = some ⟨1, 1⟩ := by
+  decide +kernel
+
+/-- **Unrelated writes, nesting depth 0.**  Extra hypotheses: `Flat P`; the calls of `pre` and the
+call of `(f, a)` are clean (`CleanCalls`); `1 ≤ fuel`.  After the call of `(f, a)`, writing any
+value to — or removing — a keyed source `k` that is not among the dependencies pico recorded for
+that node, and calling `(f, a)` again, runs no body: the run counters and the log are unchanged.
+(The recorded dependencies of a call-free body are exactly the keys it read.) -/
+theorem C02_unrelated_write_partial (fuel cap : Nat) (P : Prog) (pre : List Op) (f a k : Nat) (op : Op)
+    (hflat : Flat P) (hfuel : 1 ≤ fuel) (hclean : CleanCalls fuel cap P (pre ++ [.call f a]))
+    (hop : (∃ v, op = .set k v) ∨ op = .rem k)
+    (hk : ∀ r, alookup (after fuel cap P (pre ++ [.call f a])).derived (nodeOf P f a) = some r →
+          ∀ d, d ∈ r.deps → d.node ≠ .source (.src k)) :
+    (after fuel cap P (pre ++ [.call f a, op, .call f a])).runs = (after fuel cap P (pre ++ [.call f a, op])).runs ∧
+    (after fuel cap P (pre ++ [.call f a, op, .call f a])).log = (after fuel cap P (pre ++ [.call f a, op])).log := by
+  have hinv : Inv1 P (after fuel cap P pre) := by
+    unfold after
+    refine inv1_runS hflat fuel pre _ (Inv1.init P cap P.length) ?_
+    intro p f' a' rest' hp
+    exact hclean p f' a' (rest' ++ [.call f a]) (by rw [hp]; simp)
+  have hc := hclean pre f a [] rfl
+  have e1 : after fuel cap P (pre ++ [.call f a]) = (step fuel P (after fuel cap P pre) (.call f a)).1 := by
+    unfold after; rw [runS_append]; rfl
+  have e2 : after fuel cap P (pre ++ [.call f a, op]) =
+      (step fuel P (step fuel P (after fuel cap P pre) (.call f a)).1 op).1 := by
+    unfold after; rw [runS_append]; rfl
+  have e3 : after fuel cap P (pre ++ [.call f a, op, .call f a]) =
+      (step fuel P (step fuel P (step fuel P (after fuel cap P pre) (.call f a)).1 op).1 (.call f a)).1 := by
+    unfold after; rw [runS_append]; rfl
+  rw [e2, e3]
+  exact unrelated_write_no_rerun hflat fuel hfuel _ f a hinv hc op k hop (by rw [← e1]; exact hk)
+
+/- Non-vacuity: a reader of key 0 and of singleton 0; key 1 is written and then removed. -/
+example : Flat [⟨0, .add (.src .param) (.sing 0)⟩] ∧
+    CleanCalls 4 10 [⟨0, .add (.src .param) (.sing 0)⟩] ([.set 0 4, .set 1 1, .sset 0 2] ++ [.call 0 0]) ∧
+    (∀ r, alookup (after 4 10 [⟨0, .add (.src .param) (.sing 0)⟩] ([.set 0 4, .set 1 1, .sset 0 2] ++ [.call 0 0])).derived ⟨0, 0⟩ = some r →
+      ∀ d, d ∈ r.deps → d.node ≠ .source (.src 1)) :=
+  ⟨by decide, cleanCalls_of_B _ _ _ _ (by decide +kernel), by
+    intro r hr; have : r = ⟨7, 1, 1, [⟨.source (.src 0), 1⟩, ⟨.source (.sing 0), 1⟩]⟩ := by
+      have h2 : alookup (after 4 10 [⟨0, .add (.src .param) (.sing 0)⟩] ([.set 0 4, .set 1 1, .sset 0 2] ++ [.call 0 0])).derived ⟨0, 0⟩ =
+          some ⟨7, 1, 1, [⟨.source (.src 0), 1⟩, ⟨.source (.sing 0), 1⟩]⟩ := by decide +kernel
+      rw [h2] at hr; cases hr; rfl
+    subst this; decide⟩
+
 end IsoVerif.Props.C02
